@@ -568,4 +568,58 @@ def r5_context_free_emission(a, tier):
     return rep
 
 
-RULES = [r1_exhaustive, r2_primitives, r3_rule_transfer, r4_emission, r5_context_free_emission]
+LEAF_VALUES = [None, False, True, 0, 1, -3, 1.5, '', 'x', "it's", 'say "hi"', 'a\\b', 'two\nlines', 'tab\there', '{x}', 'é']
+
+
+def r6_leaf_literals(a, tier, rule_id='C02.R6'):
+    import contextlib
+
+    from ..minieval import Unsupported
+    from ..modelinterp import Hook, ModelInterp, Stub
+    rep = RuleReport(
+        rule_id,
+        'literal operands survive code generation: walk_Token / walk_Constant / walk_Alert / walk_Call, interpreted on stand-in nodes '
+        'for a table of operand values (None, False, 0, the empty string, quotes, backslashes, line breaks, braces, non-ASCII), print '
+        'one call `ctx.<primitive>(<literal>...)` whose argument, read back with ast.literal_eval, is the node\'s operand with the '
+        'same type - a falsy operand is not replaced by a default',
+        floor=40,
+    )
+    gen_cls = a.p.cls(GEN)
+    specs = [
+        ('walk_Token', 'tatsu.peg.basic.Token', 'token', 'token', [v for v in LEAF_VALUES if isinstance(v, str) and v]),
+        ('walk_Constant', 'tatsu.peg.basic.Constant', 'literal', 'constant', LEAF_VALUES),
+        ('walk_Alert', 'tatsu.peg.basic.Alert', 'literal', 'alert', LEAF_VALUES),
+    ]
+    for mname, cls_q, fld, prim, values in specs:
+        m = gen_cls.methods.get(mname)
+        if m is None:
+            raise AnalysisError(f'anchor vanished: {GEN}.{mname}')
+        a.p.cls(cls_q)
+        for v in values:
+            out = []
+            gen = Stub(GEN, ctx_stack=['ctx'], ctx='ctx', print=Hook(lambda *x, **_k: out.append(' '.join(str(y) for y in x))),
+                       indent=Hook(lambda *_a, **_k: contextlib.nullcontext()))
+            node = Stub(cls_q, **{fld: v, 'level': 2, 'ast': v})
+            try:
+                ModelInterp(a).call_fn(m, [gen, node])
+            except Unsupported as e:
+                raise AnalysisError(f'cannot interpret {m.qualname}: {e}') from e
+            text = '\n'.join(out).strip()
+            got, ok = '<unparsable>', False
+            try:
+                call = ast.parse(text, mode='eval').body
+                if isinstance(call, ast.Call) and dotted(call.func) == f'ctx.{prim}' and call.args:
+                    got = ast.literal_eval(call.args[0])
+                    ok = got == v and type(got) is type(v)
+                    if prim == 'alert':
+                        ok = ok and len(call.args) == 2 and ast.literal_eval(call.args[1]) == 2
+            except (SyntaxError, ValueError):
+                pass
+            rep.add({'emitter': mname, 'operand': repr(v), 'emitted': text[:80], 'read_back': repr(got), 'ok': ok})
+            if not ok:
+                rep.fail(m.qualname, f'literal:{mname}:{v!r}', f'{mname} for the operand {v!r} prints `{text[:90]}`, which reads back as '
+                         f'{got!r}: the generated parser passes another value to ctx.{prim}() than the model does', m.loc)
+    return rep
+
+
+RULES = [r1_exhaustive, r2_primitives, r3_rule_transfer, r4_emission, r5_context_free_emission, r6_leaf_literals]
